@@ -505,3 +505,208 @@ def const_arg(fn, op):
             pf = None
             return ("promoted", c["of"], c["idx"])
     return None
+
+# ---------------------------------------------------------------------------
+# path enumeration + symbolic evaluation along one path (for decision tables)
+
+class TooManyPaths(Exception):
+    pass
+
+def enum_paths(fn, start=0, limit=20000, stop_blocks=()):
+    """All acyclic block paths from start to a return (or stop block / dead end)."""
+    out = []
+    stop_blocks = set(stop_blocks)
+    def dfs(b, path, onpath):
+        if len(out) > limit: raise TooManyPaths(fn.path)
+        path.append(b); onpath.add(b)
+        t = fn.blocks[b]["t"]
+        ss = succs(fn, b)
+        if t[0] == "ret" or b in stop_blocks or not ss:
+            out.append(list(path))
+        else:
+            seen = set()
+            for s in ss:
+                if s in seen: continue
+                seen.add(s)
+                if s in onpath: continue
+                dfs(s, path, onpath)
+        path.pop(); onpath.discard(b)
+    import sys
+    sys.setrecursionlimit(100000)
+    dfs(start, [], set())
+    return out
+
+def _proj_expr(e, proj):
+    for p in proj:
+        if p == "*": continue
+        if isinstance(p, str): continue
+        if p[0] == "f":
+            if e[0] == "agg":
+                hit = None
+                for i, (fname, fe) in enumerate(e[2]):
+                    if fname == p[2] or (fname.isdigit() and int(fname) == p[1]) or i == p[1] and fname == str(p[1]):
+                        hit = fe; break
+                if hit is None and p[1] < len(e[2]): hit = e[2][p[1]][1]
+                e = hit if hit is not None else ("field", e, p[2])
+            else:
+                e = ("field", e, p[2])
+        elif p[0] == "d":
+            e = ("as", e, p[1])
+        elif p[0] == "i": e = ("index", e)
+        elif p[0] == "c": e = ("cindex", e, p[1])
+        elif p[0] == "s": e = ("slice", e)
+    return e
+
+class SymPath:
+    """Symbolic state after walking `blocks` (a path) of fn in order."""
+    def __init__(self, fn, blocks):
+        self.fn = fn; self.blocks = blocks
+        self.env = {}
+        self.conds = []     # (expr, outcome) per switch on the path; outcome = value taken or ("else", excluded)
+        self.calls = []     # (bi, callee, [arg exprs]) in path order
+        self.writes = []    # (place_expr, value_expr) for assignments through projections
+        for i in range(1, fn.nargs + 1):
+            self.env[i] = ("param", i)
+        for idx, b in enumerate(blocks):
+            blk = fn.blocks[b]
+            for s in blk["s"]:
+                if s[0] == "=":
+                    val = self.rv(s[2])
+                    self.assign(s[1], val)
+                elif s[0] == "setdiscr":
+                    self.assign(s[1], ("variant", s[2]))
+            t = blk["t"]
+            nxt = blocks[idx + 1] if idx + 1 < len(blocks) else None
+            if t[0] == "call":
+                args = [self.op(a) for a in t[2]]
+                name = callee(t) or ("indirect", self.op(t[1]["indirect"]) if t[1].get("indirect") else "?")
+                e = ("call", name, args, b)
+                self.calls.append((b, name, args, t))
+                self.assign(t[3], e)
+            elif t[0] == "switch" and nxt is not None:
+                d = self.op(t[1])
+                vals = [v for v, tb in t[2] if tb == nxt]
+                if vals and nxt != t[3]:
+                    self.conds.append((d, ("eq", tuple(vals)), b))
+                else:
+                    self.conds.append((d, ("ne", tuple(v for v, tb in t[2] if tb != nxt)), b))
+    def assign(self, place, val):
+        if len(place) == 1:
+            self.env[place[0]] = val
+        else:
+            proj = [p for p in place[1:] if p != "*"]
+            base = self.env.get(place[0])
+            # field update of a known aggregate
+            if len(proj) == 1 and not isinstance(proj[0], str) and proj[0][0] == "f" and base is not None and base[0] == "agg":
+                fields = list(base[2])
+                for i, (fname, fe) in enumerate(fields):
+                    if fname == proj[0][2]:
+                        fields[i] = (fname, val); break
+                else:
+                    fields.append((proj[0][2], val))
+                self.env[place[0]] = ("agg", base[1], fields)
+            self.writes.append((self.place(place), val, place))
+    def place(self, p):
+        base = self.env.get(p[0], ("local", p[0]))
+        return _proj_expr(base, p[1:])
+    def op(self, o):
+        if o[0] == "c":
+            c = o[1]
+            k = c.get("k")
+            if k in ("str", "int", "bool", "char"): return ("const", c["v"])
+            if k == "variant": return ("agg", c["adt"] + "::" + c["v"], [])
+            if k == "fn": return ("fn", c.get("resolved") or c["path"])
+            if k == "promoted": return ("promoted", c["of"], c["idx"])
+            if k == "static": return ("static", c["path"])
+            if k == "zst": return ("zst", c["ty"])
+            if k == "bytes": return ("bytes", tuple(c["v"]))
+            return ("constx", c.get("text") or c.get("named") or c.get("ty"))
+        return self.place(o[1])
+    def rv(self, rv):
+        k = rv[0]
+        if k == "use": return self.op(rv[1])
+        if k == "ref": return self.place(rv[2])
+        if k == "cast": return ("cast", self.op(rv[2]), rv[4])
+        if k == "bin": return ("bin", rv[1], self.op(rv[2]), self.op(rv[3]))
+        if k == "un": return ("un", rv[1], self.op(rv[2]))
+        if k == "discr": return ("discr", self.place(rv[1]))
+        if k == "agg":
+            kd = rv[1]
+            ops = [self.op(o) for o in rv[2]]
+            if kd["k"] == "adt":
+                names = kd["fields"] if len(kd["fields"]) == len(ops) else [str(i) for i in range(len(ops))]
+                return ("agg", kd["adt"] + "::" + kd["variant"], list(zip(names, ops)))
+            if kd["k"] == "closure":
+                return ("closure", kd["path"], list(zip(kd["captures"], ops)))
+            return ("agg", kd["k"], [(str(i), o) for i, o in enumerate(ops)])
+        return ("unknown", k)
+    def ret(self):
+        return self.env.get(0, ("unset",))
+
+def show(e, depth=0):
+    """compact text of a symbolic expression"""
+    if not isinstance(e, tuple): return str(e)
+    k = e[0]
+    if depth > 6: return "..."
+    if k == "const": return repr(e[1])
+    if k == "param": return "p%d" % e[1]
+    if k == "agg":
+        n = e[1].split("::")[-2] + "::" + e[1].split("::")[-1] if "::" in e[1] else e[1]
+        if not e[2]: return n
+        return "%s(%s)" % (n, ", ".join(("%s=" % f if not f.isdigit() else "") + show(v, depth + 1) for f, v in e[2]))
+    if k == "call": return "%s(%s)" % (str(e[1]).split("::")[-1] if isinstance(e[1], str) else "indirect", ", ".join(show(a, depth + 1) for a in e[2]))
+    if k == "field": return "%s.%s" % (show(e[1], depth + 1), e[2])
+    if k == "as": return "%s as %s" % (show(e[1], depth + 1), e[2])
+    if k == "discr": return "discr(%s)" % show(e[1], depth + 1)
+    if k == "bin": return "%s(%s, %s)" % (e[1], show(e[2], depth + 1), show(e[3], depth + 1))
+    if k == "un": return "%s(%s)" % (e[1], show(e[2], depth + 1))
+    if k == "cast": return "(%s as %s)" % (show(e[1], depth + 1), e[2])
+    if k == "closure": return "closure(%s)" % e[1].split("::", 2)[-1]
+    if k == "fn": return "fn " + e[1]
+    return "%s(%s)" % (k, ",".join(show(x, depth + 1) if isinstance(x, tuple) else str(x) for x in e[1:]))
+
+def strip_as(e):
+    """remove `as Variant` downcasts and casts"""
+    while isinstance(e, tuple) and e[0] in ("as",):
+        e = e[1]
+    return e
+
+def str_eq_cond(cond):
+    """if a path condition is `str == const` return (subject_expr, const, truth) else None"""
+    d, (rel, vals), b = cond
+    if d[0] == "call" and isinstance(d[1], str) and "PartialEq" in d[1] and d[1].endswith("::eq") or (d[0] == "call" and isinstance(d[1], str) and d[1].endswith("PartialEq<&B> for &A>::eq")):
+        args = d[2]
+        consts = [a for a in args if a[0] == "const" and isinstance(a[1], str)]
+        other = [a for a in args if not (a[0] == "const" and isinstance(a[1], str))]
+        if len(consts) == 1:
+            truth = (rel == "ne" and 0 in vals) or (rel == "eq" and 0 not in vals)
+            return (other[0] if other else None, consts[0][1], truth)
+    return None
+
+def string_table(fn, limit=20000):
+    """For a loop-free function matching a string against constants: {const -> set(result text)} and default results"""
+    table = {}; default = set()
+    for p in enum_paths(fn, limit=limit):
+        if fn.blocks[p[-1]]["t"][0] != "ret": continue
+        sp = SymPath(fn, p)
+        pos = None
+        for c in sp.conds:
+            se = str_eq_cond(c)
+            if se and se[2]: pos = se[1]
+        r = show(sp.ret())
+        if pos is None: default.add(r)
+        else: table.setdefault(pos, set()).add(r)
+    return table, default
+
+def resolve_upvar(F, origin):
+    """For an 'upvar' origin inside a closure: (parent_fn, operand) that was captured, or None."""
+    c = origin.fn
+    parent = F.fn(c.parent) if c.parent else None
+    if parent is None: return None
+    for bi, si, st in parent.stmts():
+        if st[0] == "=" and st[2][0] == "agg" and st[2][1].get("k") == "closure" and st[2][1]["path"] == c.path:
+            caps = st[2][1]["captures"]
+            for name, op in zip(caps, st[2][2]):
+                if name == origin.data or name.lstrip("*&") == str(origin.data).lstrip("*&"):
+                    return parent, op
+    return None
